@@ -23,13 +23,13 @@ pub fn check() -> Check {
         spec: CheckSpec {
             prop: "C03",
             level: "exploration",
-            rule: "execution = origin transactions of k=2..40 rows carrying one tag each (disjoint keys per tag, values up to 9 KiB), their complete change lists cut by the harness into contiguous partitions, overlapping chunks, duplicated chunks and single-change first chunks, delivered to a real receiver node in a seeded order and batching mixed with other versions and another actor's traffic; the receiver's tables are read after EVERY delivery and apply step; oracles: per-tag visible row count in {0,k}, visible => delivered chunks cover 0..=last_seq, covered and apply queue drained => visible, buffered rows and seq bookkeeping gone after the clear loop, final state == reference; non-trivial = a version that went through the buffered path with >=3 chunks or an overlapping/duplicated chunk; distinct by hash of the chunking+schedule",
+            rule: "execution = origin transactions of k=2..40 rows carrying one tag each (disjoint keys per tag, values up to 9 KiB), their complete change lists cut by the harness into contiguous partitions, overlapping chunks, duplicated chunks, single-change first chunks and (when a later transaction of the origin deleted a run of the rows before the version is served) a chunk whose sequence range carries no surviving change, delivered to a real receiver node in a seeded order and batching mixed with other versions and another actor's traffic; the receiver's tables are read after EVERY delivery and apply step; oracles: per-tag visible row count in {0,k}, visible => delivered chunks cover 0..=last_seq, covered and apply queue drained => visible, buffered rows and seq bookkeeping gone after the clear loop, final state == reference; non-trivial = a version that went through the buffered path with >=3 chunks or an overlapping/duplicated chunk; distinct by hash of the chunking+schedule",
             assumptions: &[
                 "bounded restatement of 'eventually applied': within the same execution after draining the apply triggers and the clear loop",
                 "the discard clause (partial answered with Empty by every holder) is exercised by the C01 workload, not here",
             ],
             min_nontrivial: 20,
-            required_stats: &["versions.delivered_in_chunks", "observations", "piv.case.none", "piv.case.adjacent-before", "piv.case.adjacent-after", "versions.became_visible_via_buffered_apply"],
+            required_stats: &["versions.delivered_in_chunks", "observations", "piv.case.none", "piv.case.adjacent-before", "piv.case.adjacent-after", "versions.became_visible_via_buffered_apply", "chunking.empty_chunk_of_overwritten_rows"],
         },
         budget: (60, 900),
         workers: (12, 14),
@@ -81,11 +81,48 @@ pub async fn one_execution(seed: u64, stats: &mut BTreeMap<String, u64>) -> Resu
         let Some(v) = body.version.filter(|_| status == 200) else {
             return Err(format!("origin tx failed: {status}"));
         };
-        let changes = ex.nodes[o].own_changes(v).map_err(|e| e.to_string())?;
+        let mut changes = ex.nodes[o].own_changes(v).map_err(|e| e.to_string())?;
         let last_seq = changes.iter().map(|c| c.seq.0).max().unwrap_or(0);
         let bcast = ex.nodes[o].collect_broadcast(v, last_seq).await?;
         // the version's real timestamp (distinct per transaction)
         let ts = bcast.iter().find_map(|c| c.ts()).unwrap_or(Timestamp::from(1u64 << 40));
+        // sometimes a later transaction of the origin deletes a run of this one's rows before
+        // the version is served: its surviving changes keep their sequence numbers, and a chunk
+        // that covers only the overwritten ones carries no change at all
+        let mut k = k;
+        let mut hole: Option<(u64, u64)> = None;
+        if k >= 3 && chance(&mut rng, 250) {
+            let a = rng.random_range(1..k - 1);
+            let b = rng.random_range(a..k - 1);
+            let (status, body) = ex.nodes[o]
+                .tx(vec![Statement::WithParams(
+                    "DELETE FROM t3 WHERE id BETWEEN ? AND ?".into(),
+                    vec![((1000 + j * 100 + a) as i64).into(), ((1000 + j * 100 + b) as i64).into()],
+                )])
+                .await;
+            let Some(w) = body.version.filter(|_| status == 200) else {
+                return Err(format!("origin overwriting tx failed: {status}"));
+            };
+            let w_changes = ex.nodes[o].own_changes(w).map_err(|e| e.to_string())?;
+            let w_last = w_changes.iter().map(|c| c.seq.0).max().unwrap_or(0);
+            for c in ex.nodes[o].collect_broadcast(w, w_last).await? {
+                pool.push((c, None));
+            }
+            apply_to_reference(&ex.reference, &w_changes).await?;
+            let surviving = ex.nodes[o].own_changes(v).map_err(|e| e.to_string())?;
+            let left: std::collections::BTreeSet<u64> = surviving.iter().map(|c| c.seq.0).collect();
+            let gone: Vec<u64> = changes.iter().map(|c| c.seq.0).filter(|s| !left.contains(s)).collect();
+            if let (Some(lo), Some(hi)) = (gone.iter().min(), gone.iter().max())
+                && (hi - lo + 1) as usize == gone.len()
+                && *lo > 0
+                && *hi < last_seq
+            {
+                hole = Some((*lo, *hi));
+            }
+            ex.log.push(format!("origin v{w} deletes rows {a}..={b} of tag{j}: seqs {gone:?} of v{v} are gone"));
+            k -= b - a + 1;
+            changes = surviving;
+        }
         apply_to_reference(&ex.reference, &changes).await?;
 
         // ---- cut into chunks
@@ -104,7 +141,13 @@ pub async fn one_execution(seed: u64, stats: &mut BTreeMap<String, u64>) -> Resu
         }
         ranges.push((start, last_seq));
         let mut fancy = false;
-        match pattern {
+        if let Some((lo, hi)) = hole {
+            // cut around the overwritten run: its chunk is a Full changeset without changes
+            ranges = vec![(0, lo - 1), (lo, hi), (hi + 1, last_seq)];
+            fancy = true;
+            *stats.entry("chunking.empty_chunk_of_overwritten_rows".into()).or_insert(0) += 1;
+        }
+        match if hole.is_some() { 9 } else { pattern } {
             0 | 1 => {
                 // overlapping: extend a chunk into its neighbours
                 if ranges.len() > 1 {
